@@ -118,3 +118,30 @@ Proof.
   - right. split; [exact (rr_functional _ _ _ _ Hrr _ H)|exact E].
 Qed.
 Print Assumptions C12_on_plain_programs_results_follow_the_retry_policy.
+
+
+(* ---- kind G: ALL programs, all schedules ------------------------------------------------------------------------------------- *)
+From MLPE Require Import Proofs.PlainCore Proofs.RetryAll.
+
+(* (8) inside a pipeline, whatever the program: the retry loop of every task is at an attempt number between 1 and `attempts`
+       ([retry_at] reads (node, attempt) off a frame of the loop; policies with attempts >= 1 after defaulting) *)
+Theorem C12_attempt_numbers_stay_within_the_configured_attempts :
+  forall P, (forall i, (1 <= pol_attempts (nspec_of P i))%Z) ->
+  forall st x f i a, reachable P st -> In x (st_tasks st) -> In f (estack (t_state x)) -> retry_at f = Some (i, a) ->
+    1 <= a /\ (Z.of_nat a <= pol_attempts (nspec_of P i))%Z.
+Proof. exact attempt_numbers_are_bounded_all_programs. Qed.
+Print Assumptions C12_attempt_numbers_stay_within_the_configured_attempts.
+
+(* (9) kind F: for EVERY plain program and EVERY schedule, while manager.run is pending, the body of a node has been invoked at most
+       `attempts` times in total ([starts i] counts the body invocations of node i in the history; the order contains only real
+       nodes: a decidable side condition, true of every plain declaration set) *)
+From MLPE Require Import Proofs.PlainWorld Proofs.PlainLive Proofs.PlainCounts.
+
+Theorem C12_on_plain_programs_at_most_attempts_invocations :
+  forall P, plain_prog P -> NoDup (p_order P (maind P)) ->
+  (forall i, (1 <= pol_attempts (nspec_of P i))%Z) ->
+  (forall n, In n (p_order P (maind P)) -> n = KN (real_index n)) ->
+  forall st, reachable P st -> over st = false -> main_done st = false ->
+    forall i, starts i (st_trace st) <= Z.to_nat (pol_attempts (nspec_of P i)).
+Proof. exact plain_bodies_are_invoked_at_most_attempts_times. Qed.
+Print Assumptions C12_on_plain_programs_at_most_attempts_invocations.
